@@ -220,6 +220,22 @@ def r01_5(chk):
 VIEW_CLASSES = [(OLD, "SeqView"), (NEW, "SeqView"), (NEWALN, "SeqDataView")]
 
 
+def _absolute_names(fn):
+    """locals assigned from the view's ABSOLUTE coordinates (parent_start / parent_stop / absolute_position: they
+    include the offset), as opposed to local plus-strand indices derived from self.start / self.stop"""
+    names = set()
+    for st in walk_no_nested(fn):
+        if isinstance(st, ast.Assign):
+            tg = st.targets[0]
+            tn = [e.id for e in tg.elts if isinstance(e, ast.Name)] if isinstance(tg, ast.Tuple) else [tg.id] if isinstance(tg, ast.Name) else []
+            vals = st.value.elts if isinstance(st.value, ast.Tuple) and isinstance(tg, ast.Tuple) and len(st.value.elts) == len(tg.elts) else [st.value] * len(tn)
+            for t, v in zip(tn, vals):
+                txt = norm(v)
+                if "self.parent_start" in txt or "self.parent_stop" in txt or "absolute_position(" in txt:
+                    names.add(t)
+    return names
+
+
 def _parent_index_names(fn):
     """local names that hold parent (plus-strand) indices: assigned from expressions over
     self.start / self.stop (possibly + adj where adj = self.seq_len + 1), or self.parent_start/stop"""
@@ -263,7 +279,11 @@ def r01_4(chk):
                 n += 1
                 realised = base in ("self.value", "self.str_value", "self.bytes_value", "self.array_value", "str(self)")
                 parent = base == "self.seq"
-                if realised:
+                absn = _absolute_names(fn)
+                uses_abs = any((isinstance(x, ast.Name) and x.id in absn) or norm(x) in ("self.parent_start", "self.parent_stop") for b in bounds for x in ast.walk(b))
+                if parent and uses_abs and cname != "SeqDataView":
+                    chk.violation("R01.4", k, m.loc(s), f"`{norm(s)}` indexes the view's own string with absolute parent coordinates (parent_start/parent_stop include the offset): for a view with a non-zero offset the wrong segment is read")
+                elif realised:
                     chk.violation("R01.4", k, m.loc(s), f"`{norm(s)}` slices the already realised view with parent indices: a sliced view `GTACGT` at parent 2..8 serialises/copies as `{'{'}view[2:8]{'}'}` = `ACGT`")
                 elif parent:
                     chk.ok("R01.4", k, m.loc(s), "parent string indexed with parent indices")
